@@ -3,6 +3,19 @@ From Coq Require Import Floats.
 From SG Require Import Base.Prelude Base.GoInt Base.GoFloat Model.Breaker Model.BreakerConc.
 #[local] Open Scope Z_scope.
 
+(* ---------------------------------------------------------------------------------- *)
+(* lists                                                                                *)
+
+Lemma nth_error_upd_nth_same {A} n (x : A) l : (n < length l)%nat -> nth_error (upd_nth n (fun _ => x) l) n = Some x.
+Proof. revert n; induction l as [|y l IH]; intros [|n] H; cbn in *; try lia; [reflexivity|apply IH; lia]. Qed.
+Lemma nth_error_upd_nth_other {A} n m (f : A -> A) l : n <> m -> nth_error (upd_nth n f l) m = nth_error l m.
+Proof. revert n m; induction l as [|y l IH]; intros [|n] [|m] H; cbn; try reflexivity; try congruence. apply IH; congruence. Qed.
+
+Lemma nth_error_snoc_lt {A} (l : list A) x k : (k < length l)%nat -> nth_error (l ++ [x]) k = nth_error l k.
+Proof. intros H. apply nth_error_app1; assumption. Qed.
+Lemma nth_error_snoc_eq {A} (l : list A) x : nth_error (l ++ [x]) (length l) = Some x.
+Proof. rewrite nth_error_app2 by lia. rewrite Nat.sub_diag. reflexivity. Qed.
+
 (* ---------- logs ---------- *)
 Lemma cas_of_app tid a b : cas_of tid (a ++ b) = cas_of tid a ++ cas_of tid b.
 Proof. unfold cas_of. apply flat_map_app. Qed.
@@ -25,80 +38,764 @@ Proof.
   - destruct (bst_eqb (ce_from x) s && edge_ok (ce_from x) (ce_to x)); [apply IH; assumption|discriminate].
 Qed.
 
+(* the state word the CAS log leads to *)
+Definition lastst (l : list cev) : bst := fold_left (fun _ e => ce_to e) l Closed.
+Lemma lastst_snoc l e : lastst (l ++ [e]) = ce_to e.
+Proof. unfold lastst. rewrite fold_left_app. reflexivity. Qed.
+Lemma lastst_nth_last l e : l <> [] -> nth_error l (length l - 1) = Some e -> lastst l = ce_to e.
+Proof.
+  intros Hne H. destruct (exists_last Hne) as (l' & x & ->).
+  rewrite app_length in H. cbn in H. replace (length l' + 1 - 1)%nat with (length l') in H by lia.
+  rewrite nth_error_snoc_eq in H. inversion H; subst. apply lastst_snoc.
+Qed.
+
+Definition adm_of (tid : Z) (l : list adm) : list adm := filter (fun a => ad_tid a =? tid) l.
+Lemma adm_of_app tid a b : adm_of tid (a ++ b) = adm_of tid a ++ adm_of tid b.
+Proof. apply filter_app. Qed.
+Fixpoint count_true (l : list bool) : Z := match l with [] => 0 | b :: r => (if b then 1 else 0) + count_true r end.
+Lemma count_true_app a b : count_true (a ++ b) = count_true a + count_true b.
+Proof. induction a as [|x a IH]; cbn; [reflexivity|rewrite IH; lia]. Qed.
+
 Lemma last_opening_app l1 l2 d : last_opening (l1 ++ l2) d = last_opening l2 (last_opening l1 d).
 Proof. revert d; induction l1 as [|e l IH]; intros d; cbn; [reflexivity|apply IH]. Qed.
 
+(* ---------------------------------------------------------------------------------- *)
+(* a schema for invariants: a predicate S on (clock, shared state) and a predicate L on
+   (clock, shared state, thread id, thread), preserved by every step of every thread       *)
+
+Definition thread_at (cf : config) (tid : Z) (th : thread) : Prop :=
+  0 <= tid /\ nth_error (ths cf) (Z.to_nat tid) = Some th.
+
+Definition sev_okP (P : Z -> Prop) (e : sev) : Prop := match e with Tick dt => P dt | _ => True end.
+
+Section Schema.
+  Variable c : cfg.
+  Variable tickP : Z -> Prop.
+  Variable S : Z -> shared -> Prop.
+  Variable L : Z -> shared -> Z -> thread -> Prop.
+  Hypothesis Hstep : forall tid clk sh th, 0 <= tid -> S clk sh -> L clk sh tid th ->
+    S clk (fst (tstep c tid clk sh th)) /\
+    L clk (fst (tstep c tid clk sh th)) tid (snd (tstep c tid clk sh th)) /\
+    (forall tid2 th2, tid2 <> tid -> L clk sh tid2 th2 -> L clk (fst (tstep c tid clk sh th)) tid2 th2).
+  Hypothesis Htick : forall dt clk sh, tickP dt -> S clk sh ->
+    S (clk + dt) sh /\ forall tid th, L clk sh tid th -> L (clk + dt) sh tid th.
+  Hypothesis Hhavoc : forall sl clk sh, S clk sh ->
+    S clk (set_csl sh sl) /\ forall tid th, L clk sh tid th -> L clk (set_csl sh sl) tid th.
+
+  Definition ginv (cf : config) : Prop :=
+    S (clk cf) (shd cf) /\ forall tid th, thread_at cf tid th -> L (clk cf) (shd cf) tid th.
+
+  Lemma ginv_cstep cf e : sev_okP tickP e -> ginv cf -> ginv (cstep c cf e).
+  Proof.
+    intros Hok [HS HL]. destruct e as [tid|dt|sl]; cbn [cstep].
+    - destruct (nth_error (ths cf) (Z.to_nat tid)) as [th|] eqn:Eth; [|split; assumption].
+      destruct (Z.ltb_spec tid 0) as [Hneg|Hpos]; [split; assumption|].
+      destruct (tstep c tid (clk cf) (shd cf) th) as [sh' th'] eqn:Est.
+      assert (Hat : thread_at cf tid th) by (split; assumption).
+      destruct (Hstep tid (clk cf) (shd cf) th Hpos HS (HL _ _ Hat)) as (H1 & H2 & H3).
+      rewrite Est in H1, H2, H3. cbn [fst snd] in *.
+      split; cbn [shd clk ths]; [assumption|].
+      intros tid2 th2 [Hp2 Hn2]. cbn [ths] in Hn2.
+      destruct (Z.eq_dec tid2 tid) as [->|Hne].
+      + rewrite nth_error_upd_nth_same in Hn2 by (apply nth_error_Some; congruence).
+        inversion Hn2; subst. assumption.
+      + rewrite nth_error_upd_nth_other in Hn2 by (intro Hx; apply Hne; apply Z2Nat.inj in Hx; lia).
+        apply H3; [assumption|]. apply HL. split; assumption.
+    - cbn in Hok. destruct (Htick dt (clk cf) (shd cf) Hok HS) as [H1 H2].
+      split; cbn [shd clk ths]; [assumption|]. intros tid th Hat. apply H2. apply HL. exact Hat.
+    - destruct (Hhavoc sl (clk cf) (shd cf) HS) as [H1 H2].
+      split; cbn [shd clk ths]; [assumption|]. intros tid th Hat. apply H2. apply HL. exact Hat.
+  Qed.
+
+  Lemma ginv_exec sched cf : Forall (sev_okP tickP) sched -> ginv cf -> ginv (exec c sched cf).
+  Proof.
+    revert cf; induction sched as [|e r IH]; intros cf Hok Hi; cbn; [assumption|].
+    inversion Hok; subst. apply IH; [assumption|]. apply ginv_cstep; assumption.
+  Qed.
+End Schema.
+
+Lemma sev_okP_true sched : Forall (sev_okP (fun _ => True)) sched.
+Proof. induction sched as [|[?|?|?] r IH]; constructor; cbn; auto. Qed.
+Lemma sev_okP_nonneg sched : Forall sev_ok sched -> Forall (sev_okP (fun dt => 0 <= dt)) sched.
+Proof. intros H; induction H as [|[?|?|?] r H1 H2 IH]; constructor; cbn in *; auto. Qed.
+
+(* ---------------------------------------------------------------------------------- *)
+(* what one thread step does                                                            *)
+
 Lemma pending_finish th : pending (tpc (finish th)) = [].
 Proof. unfold finish. cbn. destruct (tl (tops th)); reflexivity. Qed.
-Lemma pending_finish_result th r : pending (tpc (finish (result th r))) = [].
-Proof. unfold finish, result. cbn. destruct (tl (tops th)); reflexivity. Qed.
-
-(* ---------- what one thread step does to the shared state ---------- *)
-
-(* the step of thread tid appends only entries of tid to the logs *)
-Definition only_tid (tid : Z) (sh sh' : shared) : Prop :=
-  forall tid', tid' <> tid ->
-    cas_of tid' (clog sh') = cas_of tid' (clog sh) /\ calls_of tid' (llog sh') = calls_of tid' (llog sh).
-
-Ltac break_match :=
-  match goal with
-  | |- context [match ?x with _ => _ end] => destruct x eqn:?
-  | |- context [if ?x then _ else _] => destruct x eqn:?
-  end.
-
+Lemma tres_finish th : tres (finish th) = tres th.
+Proof. reflexivity. Qed.
 Lemma finish_pc th : tpc (finish th) = PDone \/ tpc (finish th) = PBound.
 Proof. unfold finish. cbn. destruct (tl (tops th)); auto. Qed.
 Lemma finish_not_t302 th : match tpc (finish th) with T302 _ _ => False | _ => True end.
 Proof. destruct (finish_pc th) as [-> | ->]; exact I. Qed.
 
-Lemma begin_op_shared c clk sh th :
-  let r := begin_op c clk sh th in
-  sw (fst r) = sw sh /\ dl (fst r) = dl sh /\ pn (fst r) = pn sh /\ llog (fst r) = llog sh /\ clog (fst r) = clog sh /\
-  admits (fst r) = admits sh /\ phase (fst r) = phase sh /\ topen (fst r) = topen sh /\ dtag (fst r) = dtag sh /\
-  pending (tpc (snd r)) = [] /\ tres (snd r) = tres th /\
-  (match tpc (snd r) with T302 _ _ => False | _ => True end).
+(* everything except the counters *)
+Definition core_eq (sh sh' : shared) : Prop :=
+  sw sh' = sw sh /\ dl sh' = dl sh /\ pn sh' = pn sh /\ llog sh' = llog sh /\ clog sh' = clog sh /\
+  admits sh' = admits sh /\ phase sh' = phase sh /\ topen sh' = topen sh /\ dtag sh' = dtag sh.
+Lemma core_eq_refl sh : core_eq sh sh.
+Proof. repeat split. Qed.
+Lemma core_eq_csl sh sl : core_eq sh (set_csl sh sl).
+Proof. repeat split. Qed.
+Lemma reset_metric_core c clk sh : core_eq sh (reset_metric c clk sh).
+Proof. unfold reset_metric. destruct (clk <=? 0); [apply core_eq_refl|apply core_eq_csl]. Qed.
+
+Lemma begin_op_spec c clk sh th :
+  core_eq sh (fst (begin_op c clk sh th)) /\
+  pending (tpc (snd (begin_op c clk sh th))) = [] /\ tres (snd (begin_op c clk sh th)) = tres th /\
+  (match tpc (snd (begin_op c clk sh th)) with T302 _ _ => False | _ => True end).
 Proof.
-  cbv zeta. unfold begin_op. destruct (tops th) as [|[b|rt err] ops] eqn:E; cbn [fst snd].
-  - cbn. repeat split; reflexivity.
-  - cbn. repeat split; reflexivity.
+  unfold begin_op. destruct (tops th) as [|[b|rt err] ops] eqn:E; cbn [fst snd].
+  - repeat split.
+  - repeat split.
   - destruct (clk <=? 0); cbn [fst snd].
-    + rewrite pending_finish. pose proof (finish_not_t302 th). repeat split; auto.
+    + pose proof (finish_not_t302 th). rewrite pending_finish. repeat split; auto.
     + destruct (la_current (gn c) (gbl c) clk (csl sh)); cbn [fst snd].
-      * cbn. repeat split; reflexivity.
-      * rewrite pending_finish. pose proof (finish_not_t302 th). repeat split; auto.
+      * repeat split.
+      * pose proof (finish_not_t302 th). rewrite pending_finish. repeat split; auto.
 Qed.
 
-Lemma reset_metric_shared c clk sh :
-  sw (reset_metric c clk sh) = sw sh /\ dl (reset_metric c clk sh) = dl sh /\ pn (reset_metric c clk sh) = pn sh /\
-  llog (reset_metric c clk sh) = llog sh /\ clog (reset_metric c clk sh) = clog sh /\
-  admits (reset_metric c clk sh) = admits sh /\ phase (reset_metric c clk sh) = phase sh /\
-  topen (reset_metric c clk sh) = topen sh /\ dtag (reset_metric c clk sh) = dtag sh.
-Proof. unfold reset_metric. destruct (clk <=? 0); cbn; repeat split; reflexivity. Qed.
+Lemma filter_none {A} (f : A -> bool) l : (forall a, In a l -> f a = false) -> filter f l = [].
+Proof. induction l as [|x l IH]; intros H; cbn; [reflexivity|]. rewrite (H x (or_introl eq_refl)). apply IH. intros a Ha. apply H. right. exact Ha. Qed.
 
-Ltac rm_simpl c clk sh :=
-  let H := fresh "Hrm" in
-  pose proof (reset_metric_shared c clk sh) as H;
-  destruct H as (?Hrm1 & ?Hrm2 & ?Hrm3 & ?Hrm4 & ?Hrm5 & ?Hrm6 & ?Hrm7 & ?Hrm8 & ?Hrm9).
+Ltac break_match :=
+  match goal with
+  | |- context [match ?x with _ => _ end] => destruct x eqn:?
+  end.
 
-Ltac fin_pc := unfold finish, result, with_pc; cbn [tpc tops tres];
-  repeat match goal with |- context [match tl ?l with _ => _ end] => destruct (tl l) end.
+(* ---------------------------------------------------------------------------------- *)
+(* invariant U (no assumption on the ticks): the CAS log is a legal chain ending at the state
+   word; admissions carry the epoch of their decision; ProbeNum = 0: one admission per
+   half-open epoch, the thread that made the CAS; per thread, CAS log = listener calls ++
+   pending; per thread, number of `true` results = number of admissions                     *)
 
-(* report: per thread, CAS log = listener calls ++ the one not yet reported *)
-Lemma tstep_report c tid clk sh th :
-  let r := tstep c tid clk sh th in
-  only_tid tid sh (fst r) /\
-  (cas_of tid (clog sh) = calls_of tid (llog sh) ++ pending (tpc th) ->
-   cas_of tid (clog (fst r)) = calls_of tid (llog (fst r)) ++ pending (tpc (snd r))).
+Definition probe_adm (sh : shared) : Prop :=
+  forall k e, nth_error (clog sh) k = Some e -> ce_to e = HalfOpen ->
+    exists tp fr, filter (fun a => ad_epoch a =? Z.of_nat k + 1) (admits sh)
+                  = [Adm (ce_tid e) (ce_clk e) Open (Z.of_nat k + 1) tp fr].
+
+(* every Open->HalfOpen CAS has its admission record *)
+Definition probe_rec (sh : shared) : Prop :=
+  forall k e, nth_error (clog sh) k = Some e -> ce_to e = HalfOpen ->
+    exists tp fr, In (Adm (ce_tid e) (ce_clk e) Open (Z.of_nat k + 1) tp fr) (admits sh).
+
+Definition SU (c : cfg) (sh : shared) : Prop :=
+  cpath Closed (clog sh) = Some (sw sh) /\ lastst (clog sh) = sw sh /\
+  (forall a, In a (admits sh) -> ad_epoch a <= epoch sh) /\
+  (probe_num c = 0 -> probe_adm sh) /\ probe_rec sh.
+
+Definition LU (sh : shared) (tid : Z) (th : thread) : Prop :=
+  cas_of tid (clog sh) = calls_of tid (llog sh) ++ pending (tpc th) /\
+  count_true (tres th) = Z.of_nat (length (adm_of tid (admits sh))).
+
+Lemma SU_core c sh sh' : core_eq sh sh' -> SU c sh -> SU c sh'.
 Proof.
-  unfold only_tid. cbv zeta. unfold tstep.
-  destruct (tpc th) eqn:Epc; cbn [pending].
-  all: try (pose proof (begin_op_shared c clk sh th) as Hb; cbv zeta in Hb;
-            destruct Hb as (_ & _ & _ & Hl & Hc & _ & _ & _ & _ & Hp & _); rewrite Hl, Hc, Hp, ?app_nil_r; auto; fail).
-  all: repeat break_match; cbn [fst snd clog llog set_sw set_open set_dl set_pn set_csl add_call add_adm];
-       rewrite ?pending_finish, ?pending_finish_result; unfold with_pc; cbn [tpc pending];
-       try (match goal with |- context [reset_metric ?c ?k ?s] => rm_simpl c k s; rewrite ?Hrm4, ?Hrm5; cbn [clog llog add_call] end);
-       (split; [intros tid' Hne; rewrite ?cas_of_app, ?calls_of_app, ?cas_of_one_other, ?calls_of_one_other, ?app_nil_r by assumption; auto|]);
-       intros H; rewrite ?cas_of_app, ?calls_of_app, ?cas_of_one_same, ?calls_of_one_same, ?app_nil_r in *;
-       try rewrite H; rewrite <- ?app_assoc, ?app_nil_r; try reflexivity.
-  rewrite Epc. cbn. rewrite app_nil_r. reflexivity.
+  intros (E1 & _ & _ & _ & E5 & E6 & _) (H1 & H2 & H3 & H4 & H5). unfold SU, probe_adm, probe_rec, epoch in *.
+  rewrite E1, E5, E6. auto.
+Qed.
+
+Lemma epoch_snoc sh l e : clog sh = l -> Z.of_nat (length (l ++ [e])) = Z.of_nat (length l) + 1.
+Proof. intros _. rewrite app_length. cbn. lia. Qed.
+
+(* a CAS that does not lead to HalfOpen, with unchanged admissions *)
+Lemma SU_cas c sh sh' e :
+  SU c sh -> clog sh' = clog sh ++ [e] -> sw sh' = ce_to e -> admits sh' = admits sh ->
+  ce_from e = sw sh -> edge_ok (ce_from e) (ce_to e) = true -> ce_to e <> HalfOpen -> SU c sh'.
+Proof.
+  intros (H1 & H2 & H3 & H4 & H5) Ec Es Ea Hf He Hn. unfold SU, probe_adm, probe_rec, epoch in *.
+  rewrite Ec, Es, Ea.
+  assert (Hidx : forall k e', nth_error (clog sh ++ [e]) k = Some e' -> ce_to e' = HalfOpen -> nth_error (clog sh) k = Some e').
+  { intros k e' Hn' Ht. destruct (Nat.lt_ge_cases k (length (clog sh))) as [Hlt|Hge].
+    - rewrite nth_error_snoc_lt in Hn' by assumption. assumption.
+    - assert (k = length (clog sh)).
+      { assert (k < length (clog sh ++ [e]))%nat by (apply nth_error_Some; congruence). rewrite app_length in *. cbn in *. lia. }
+      subst k. rewrite nth_error_snoc_eq in Hn'. inversion Hn'; subst. contradiction. }
+  split; [|split; [|split; [|split]]]; [| | | |intros k e' Hn' Ht; apply H5; [apply Hidx|]; assumption].
+  - apply cpath_app_one; [rewrite Hf; assumption|assumption].
+  - apply lastst_snoc.
+  - intros a Ha. specialize (H3 a Ha). rewrite app_length. cbn. lia.
+  - intros Hp k e' Hn' Ht. apply (H4 Hp); [apply Hidx|]; assumption.
+Qed.
+
+(* the probe: CAS Open -> HalfOpen together with its admission *)
+Lemma SU_probe c sh sh' tid clk tp fr :
+  SU c sh -> sw sh = Open ->
+  clog sh' = clog sh ++ [CEv tid KTry Open HalfOpen clk] -> sw sh' = HalfOpen ->
+  admits sh' = admits sh ++ [Adm tid clk Open (epoch sh + 1) tp fr] -> SU c sh'.
+Proof.
+  intros (H1 & H2 & H3 & H4 & H5) Hs Ec Es Ea. unfold SU, probe_adm, probe_rec, epoch in *.
+  rewrite Ec, Es, Ea. split; [|split; [|split; [|split]]].
+  - change HalfOpen with (ce_to (CEv tid KTry Open HalfOpen clk)). apply cpath_app_one; cbn; [rewrite <- Hs; assumption|reflexivity].
+  - apply lastst_snoc.
+  - intros a Ha. rewrite app_length. cbn [length]. apply in_app_or in Ha. destruct Ha as [Ha|[<-|[]]].
+    + specialize (H3 a Ha). lia.
+    + cbn. lia.
+  - intros Hp k e' Hn' Ht. specialize (H4 Hp). rewrite filter_app. cbn [filter ad_epoch].
+    destruct (Nat.lt_ge_cases k (length (clog sh))) as [Hlt|Hge].
+    + rewrite nth_error_snoc_lt in Hn' by assumption. destruct (H4 k e' Hn' Ht) as (tp' & fr' & ->).
+      destruct (Z.eqb_spec (Z.of_nat (length (clog sh)) + 1) (Z.of_nat k + 1)); [lia|]. cbn. eauto.
+    + assert (k = length (clog sh)).
+      { assert (k < length (clog sh ++ [CEv tid KTry Open HalfOpen clk]))%nat by (apply nth_error_Some; congruence). rewrite app_length in *. cbn in *. lia. }
+      subst k. rewrite nth_error_snoc_eq in Hn'. inversion Hn'; subst. cbn [ce_tid ce_clk].
+      rewrite Z.eqb_refl.
+      rewrite filter_none; [cbn; eauto|].
+      intros a Ha. specialize (H3 a Ha). apply Z.eqb_neq. lia.
+  - intros k e' Hn' Ht.
+    destruct (Nat.lt_ge_cases k (length (clog sh))) as [Hlt|Hge].
+    + rewrite nth_error_snoc_lt in Hn' by assumption. destruct (H5 k e' Hn' Ht) as (tp' & fr' & Hin).
+      exists tp', fr'. apply in_or_app. left. exact Hin.
+    + assert (k = length (clog sh)).
+      { assert (k < length (clog sh ++ [CEv tid KTry Open HalfOpen clk]))%nat by (apply nth_error_Some; congruence). rewrite app_length in *. cbn in *. lia. }
+      subst k. rewrite nth_error_snoc_eq in Hn'. inversion Hn'; subst. cbn [ce_tid ce_clk].
+      exists tp, fr. apply in_or_app. right. left. reflexivity.
+Qed.
+
+(* an admission decided at the state load *)
+Lemma SU_adm c sh sh' a :
+  SU c sh -> sw sh' = sw sh -> clog sh' = clog sh -> admits sh' = admits sh ++ [a] ->
+  ad_epoch a = epoch sh -> (probe_num c = 0 -> sw sh <> HalfOpen) -> SU c sh'.
+Proof.
+  intros (H1 & H2 & H3 & H4 & H5) Es Ec Ea Hep Hnh. unfold SU, probe_adm, probe_rec, epoch in *.
+  rewrite Ec, Es, Ea. split; [assumption|split; [assumption|split; [|split]]];
+    [| |intros k e Hn Ht; destruct (H5 k e Hn Ht) as (tp & fr & Hin); exists tp, fr; apply in_or_app; left; exact Hin].
+  - intros x Hx. apply in_app_or in Hx. destruct Hx as [Hx|[<-|[]]]; [apply H3; assumption|lia].
+  - intros Hp k e Hn Ht. specialize (H4 Hp). specialize (Hnh Hp). rewrite filter_app. cbn [filter].
+    destruct (H4 k e Hn Ht) as (tp & fr & ->).
+    destruct (Z.eqb_spec (ad_epoch a) (Z.of_nat k + 1)) as [Heq|Hneq]; [|cbn; eauto].
+    exfalso. apply Hnh. rewrite <- H2.
+    assert (Hk : (k < length (clog sh))%nat) by (apply nth_error_Some; congruence).
+    rewrite (lastst_nth_last (clog sh) e); [assumption| |].
+    + intro Hnil. rewrite Hnil in Hk. cbn in Hk. lia.
+    + replace (length (clog sh) - 1)%nat with k by lia. assumption.
+Qed.
+
+Lemma adm_of_one_same tid clk s ep tp fr : adm_of tid [Adm tid clk s ep tp fr] = [Adm tid clk s ep tp fr].
+Proof. unfold adm_of. cbn. rewrite Z.eqb_refl. reflexivity. Qed.
+Lemma adm_of_one_other tid tid' clk s ep tp fr : tid' <> tid -> adm_of tid' [Adm tid clk s ep tp fr] = [].
+Proof. intros H. unfold adm_of. cbn. destruct (Z.eqb_spec tid tid'); [lia|reflexivity]. Qed.
+
+(* the parts of the shared state the invariant U reads *)
+Definition log_eq (sh sh' : shared) : Prop :=
+  sw sh' = sw sh /\ llog sh' = llog sh /\ clog sh' = clog sh /\ admits sh' = admits sh.
+Lemma core_log_eq sh sh' : core_eq sh sh' -> log_eq sh sh'.
+Proof. intros (E1 & _ & _ & E4 & E5 & E6 & _). repeat split; assumption. Qed.
+Lemma SU_log c sh sh' : log_eq sh sh' -> SU c sh -> SU c sh'.
+Proof.
+  intros (E1 & _ & E5 & E6) (H1 & H2 & H3 & H4 & H5). unfold SU, probe_adm, probe_rec, epoch in *.
+  rewrite E1, E5, E6. auto.
+Qed.
+Lemma LU_log sh sh' tid th : log_eq sh sh' -> LU sh tid th -> LU sh' tid th.
+Proof. intros (_ & E4 & E5 & E6) H. unfold LU in *. rewrite E4, E5, E6. exact H. Qed.
+Lemma LU_log_th sh sh' tid th th' : log_eq sh sh' -> pending (tpc th') = pending (tpc th) -> tres th' = tres th ->
+  LU sh tid th -> LU sh' tid th'.
+Proof. intros (_ & E4 & E5 & E6) Hp Hr H. unfold LU in *. rewrite E4, E5, E6, Hp, Hr. exact H. Qed.
+
+Ltac proj_simpl :=
+  cbn [fst snd sw dl pn csl llog clog admits phase topen dtag set_sw set_open set_dl set_pn set_csl add_call add_adm
+       tpc tops tres with_pc result pending ce_tid ce_from ce_to ce_clk ce_kind ad_tid ad_clk ad_seen ad_epoch ad_topen ad_fresh] in *.
+
+Ltac frame_tac :=
+  let tid2 := fresh "tid2" in let th2 := fresh "th2" in let Hne := fresh "Hne" in let Ha := fresh "Ha" in let Hb := fresh "Hb" in
+  intros tid2 th2 Hne [Ha Hb]; split; proj_simpl;
+  rewrite ?cas_of_app, ?calls_of_app, ?adm_of_app, ?cas_of_one_other, ?calls_of_one_other, ?adm_of_one_other, ?app_nil_r by assumption;
+  assumption.
+
+Ltac log_frame H :=
+  let tid2 := fresh "tid2" in let th2 := fresh "th2" in let Hne := fresh "Hne" in let Hl := fresh "Hl" in
+  intros tid2 th2 Hne Hl; exact (LU_log _ _ _ _ H Hl).
+
+(* a step that leaves sw / logs / admissions alone: new shared state sh', new thread th' *)
+Lemma U_nolog c sh sh' tid th th' :
+  log_eq sh sh' -> pending (tpc th') = pending (tpc th) -> tres th' = tres th ->
+  SU c sh -> LU sh tid th ->
+  SU c sh' /\ LU sh' tid th' /\ (forall tid2 th2, tid2 <> tid -> LU sh tid2 th2 -> LU sh' tid2 th2).
+Proof.
+  intros Hl Hp Hr HS HL. split; [exact (SU_log _ _ _ Hl HS)|split; [exact (LU_log_th _ _ _ _ _ Hl Hp Hr HL)|log_frame Hl]].
+Qed.
+
+Ltac nolog := match goal with HL : LU ?sh ?tid ?th |- _ =>
+  apply (U_nolog _ sh _ tid th); [repeat split|rewrite ?pending_finish; try match goal with E : tpc th = _ |- _ => rewrite E end; reflexivity|reflexivity|assumption|assumption] end.
+
+
+Lemma pending_finish_result th r : pending (tpc (finish (result th r))) = [].
+Proof. apply pending_finish. Qed.
+
+Lemma U_step c tid clk sh th : SU c sh -> LU sh tid th ->
+  SU c (fst (tstep c tid clk sh th)) /\ LU (fst (tstep c tid clk sh th)) tid (snd (tstep c tid clk sh th)) /\
+  (forall tid2 th2, tid2 <> tid -> LU sh tid2 th2 -> LU (fst (tstep c tid clk sh th)) tid2 th2).
+Proof.
+  intros HS HL. pose proof HS as (HS1 & HS2 & HS3 & HS4 & HS5). pose proof HL as [HL1 HL2].
+  unfold tstep. destruct (tpc th) eqn:Epc.
+  - (* PBound *)
+    destruct (begin_op_spec c clk sh th) as (Hc & Hp & Hr & _).
+    apply (U_nolog c sh _ tid th); [apply core_log_eq; assumption|rewrite Hp, Epc; reflexivity|assumption|assumption|assumption].
+  - (* PDone *)
+    cbn [fst snd]. split; [assumption|split; [assumption|]]. intros; assumption.
+  - (* T301 *)
+    destruct (sw sh) eqn:Esw; [|destruct (0 <? probe_num c) eqn:Epn|]; cbn [fst snd].
+    + split; [|split; [|frame_tac]].
+      * eapply SU_adm; [exact HS|reflexivity|reflexivity|reflexivity|reflexivity|]. intros _. congruence.
+      * unfold LU. proj_simpl. rewrite pending_finish, tres_finish. cbn [tres result]. cbn [pending] in HL1.
+        rewrite adm_of_app, adm_of_one_same, app_length, count_true_app. cbn. rewrite app_nil_r in *. split; [assumption|lia].
+    + split; [|split; [|frame_tac]].
+      * eapply SU_adm; [exact HS|reflexivity|reflexivity|reflexivity|reflexivity|]. intros Hp. apply Z.ltb_lt in Epn. lia.
+      * unfold LU. proj_simpl. rewrite pending_finish, tres_finish. cbn [tres result]. cbn [pending] in HL1.
+        rewrite adm_of_app, adm_of_one_same, app_length, count_true_app. cbn. rewrite app_nil_r in *. split; [assumption|lia].
+    + split; [assumption|split; [|intros; assumption]].
+      unfold LU. rewrite pending_finish, tres_finish. cbn [tres result]. cbn [pending] in HL1.
+      rewrite count_true_app. cbn. rewrite app_nil_r in *. split; [assumption|lia].
+    + nolog.
+  - (* T303 *)
+    destruct (dl sh <=? clk); cbn [fst snd]; [nolog|].
+    split; [assumption|split; [|intros; assumption]].
+    unfold LU. rewrite pending_finish, tres_finish. cbn [tres result]. cbn [pending] in HL1.
+    rewrite count_true_app. cbn. rewrite app_nil_r in *. split; [assumption|lia].
+  - (* T302 *)
+    cbn [pending] in HL1. rewrite app_nil_r in HL1.
+    assert (Hfail : SU c sh /\ LU sh tid (finish (result th false)) /\ (forall tid2 th2, tid2 <> tid -> LU sh tid2 th2 -> LU sh tid2 th2)).
+    { split; [assumption|split; [|intros; assumption]].
+      unfold LU. rewrite pending_finish, tres_finish. cbn [tres result].
+      rewrite count_true_app. cbn. rewrite app_nil_r. split; [assumption|lia]. }
+    destruct (sw sh) eqn:Esw; cbn [fst snd]; try exact Hfail.
+    split; [|split; [|frame_tac]].
+    + eapply SU_probe; [exact HS|exact Esw|reflexivity|reflexivity|reflexivity].
+    + unfold LU. proj_simpl. rewrite cas_of_app, cas_of_one_same, adm_of_app, adm_of_one_same, app_length, count_true_app, HL1.
+      cbn. split; [reflexivity|lia].
+  - (* T307 *)
+    cbn [pending] in HL1. cbn [fst snd].
+    split; [exact HS|split; [|frame_tac]].
+    unfold LU. proj_simpl. rewrite calls_of_app, calls_of_one_same, HL1.
+    destruct blocked; [cbn [with_pc tpc pending tres]|rewrite pending_finish, tres_finish]; rewrite app_nil_r; split; auto.
+  - (* R302 *)
+    cbn [pending] in HL1. rewrite app_nil_r in HL1.
+    destruct (sw sh) eqn:Esw; cbn [fst snd]; try nolog.
+    split; [|split; [|frame_tac]].
+    + eapply (SU_cas c sh _ (CEv tid KRollback HalfOpen Open clk)); [exact HS|reflexivity|reflexivity|reflexivity|cbn; congruence|reflexivity|cbn; congruence].
+    + unfold LU. proj_simpl. rewrite cas_of_app, cas_of_one_same, HL1. split; [reflexivity|assumption].
+  - (* R307 *)
+    cbn [pending] in HL1. cbn [fst snd].
+    split; [exact HS|split; [|frame_tac]].
+    unfold LU. proj_simpl. rewrite calls_of_app, calls_of_one_same, HL1, pending_finish, tres_finish, app_nil_r. split; auto.
+  - (* C301 *)
+    destruct (sw sh); [destruct (T <? min_amt c); [|destruct (reached c B T)]|destruct bad|]; cbn [fst snd]; nolog.
+  - (* C301b *)
+    destruct (sw sh); cbn [fst snd]; nolog.
+  - (* C305 *) cbn [fst snd]. nolog.
+  - (* C314 *)
+    destruct ((probe_num c =? 0) || (probe_num c <=? pn sh)); cbn [fst snd]; nolog.
+  - (* CCasCO *)
+    cbn [pending] in HL1. rewrite app_nil_r in HL1.
+    destruct (sw sh) eqn:Esw; cbn [fst snd]; try nolog.
+    split; [|split; [|frame_tac]].
+    + eapply (SU_cas c sh _ (CEv tid KComplete Closed Open clk)); [exact HS|reflexivity|reflexivity|reflexivity|cbn; congruence|reflexivity|cbn; congruence].
+    + unfold LU. proj_simpl. rewrite cas_of_app, cas_of_one_same, HL1. split; [reflexivity|assumption].
+  - (* C304co *) cbn [fst snd]. nolog.
+  - (* C307co *)
+    cbn [pending] in HL1. cbn [fst snd].
+    split; [exact HS|split; [|frame_tac]].
+    unfold LU. proj_simpl. rewrite calls_of_app, calls_of_one_same, HL1, pending_finish, tres_finish, app_nil_r. split; auto.
+  - (* CCasHO *)
+    cbn [pending] in HL1. rewrite app_nil_r in HL1.
+    destruct (sw sh) eqn:Esw; cbn [fst snd]; try nolog.
+    split; [|split; [|frame_tac]].
+    + eapply (SU_cas c sh _ (CEv tid KComplete HalfOpen Open clk)); [exact HS|reflexivity|reflexivity|reflexivity|cbn; congruence|reflexivity|cbn; congruence].
+    + unfold LU. proj_simpl. rewrite cas_of_app, cas_of_one_same, HL1. split; [reflexivity|assumption].
+  - (* C306ho *) cbn [fst snd]. nolog.
+  - (* C304ho *) cbn [fst snd]. nolog.
+  - (* C307ho *)
+    cbn [pending] in HL1. cbn [fst snd].
+    split; [exact HS|split; [|frame_tac]].
+    unfold LU. proj_simpl. rewrite calls_of_app, calls_of_one_same, HL1, pending_finish, tres_finish, app_nil_r. split; auto.
+  - (* CCasHC *)
+    cbn [pending] in HL1. rewrite app_nil_r in HL1.
+    assert (Hrm : log_eq sh (reset_metric c clk sh)) by (apply core_log_eq, reset_metric_core).
+    destruct (sw sh) eqn:Esw; cbn [fst snd];
+      try (apply (U_nolog c sh _ tid th); [exact Hrm|rewrite pending_finish, Epc; reflexivity|reflexivity|assumption|assumption]).
+    split; [|split; [|frame_tac]].
+    + eapply (SU_cas c sh _ (CEv tid KComplete HalfOpen Closed clk)); [exact HS|reflexivity|reflexivity|reflexivity|cbn; congruence|reflexivity|cbn; congruence].
+    + unfold LU. proj_simpl. rewrite cas_of_app, cas_of_one_same, HL1. split; [reflexivity|assumption].
+  - (* C306hc *) cbn [fst snd]. nolog.
+  - (* C307hc *)
+    cbn [pending] in HL1. cbn [fst snd].
+    pose proof (core_log_eq _ _ (reset_metric_core c clk (add_call sh tid (TEv HalfOpen Closed None)))) as Hrm.
+    assert (Hl2 : SU c (add_call sh tid (TEv HalfOpen Closed None))) by exact HS.
+    split; [exact (SU_log _ _ _ Hrm Hl2)|split].
+    + apply (LU_log _ _ _ _ Hrm). unfold LU. proj_simpl.
+      rewrite calls_of_app, calls_of_one_same, HL1, pending_finish, tres_finish, app_nil_r. split; auto.
+    + intros tid2 th2 Hne Hl. apply (LU_log _ _ _ _ Hrm). revert tid2 th2 Hne Hl. frame_tac.
+Qed.
+
+(* ---------------------------------------------------------------------------------- *)
+(* invariant T (ticks do not move the clock backwards): the retry deadline stored during the
+   current open phase is at least (time of the opening CAS) + timeout; a TryPass that checked
+   such a deadline carries a clock reading at least that large                              *)
+
+Definition adm_ok (c : cfg) (l : list cev) (a : adm) : Prop :=
+  ad_seen a = Open ->
+  (ad_fresh a = true -> ad_topen a + retry_ms c <= ad_clk a) /\
+  1 <= ad_epoch a <= Z.of_nat (length l) /\
+  ad_topen a = last_opening (firstn (Z.to_nat (ad_epoch a - 1)) l) 0 /\
+  nth_error l (Z.to_nat (ad_epoch a - 1)) = Some (CEv (ad_tid a) KTry Open HalfOpen (ad_clk a)).
+
+Definition ST (c : cfg) (clk : Z) (sh : shared) : Prop :=
+  topen sh <= clk /\ dtag sh <= phase sh /\ (dtag sh = phase sh -> topen sh + retry_ms c <= dl sh) /\
+  topen sh = last_opening (clog sh) 0 /\ Forall (adm_ok c (clog sh)) (admits sh).
+
+Definition LT (c : cfg) (clk : Z) (sh : shared) (th : thread) : Prop :=
+  match tpc th with
+  | T302 rnow rtag => rnow <= clk /\ rtag <= phase sh /\ (rtag = phase sh -> topen sh + retry_ms c <= rnow)
+  | _ => True
+  end.
+
+Definition frame_cond (sh sh' : shared) : Prop :=
+  (phase sh' = phase sh /\ topen sh' = topen sh) \/ phase sh' = phase sh + 1.
+
+Lemma LT_frame c clk sh sh' th : frame_cond sh sh' -> LT c clk sh th -> LT c clk sh' th.
+Proof.
+  unfold LT, frame_cond. destruct (tpc th); auto. intros [[E1 E2]|E1] (H1 & H2 & H3); [rewrite E1, E2; auto|rewrite E1].
+  split; [assumption|split; [lia|intros; lia]].
+Qed.
+
+Lemma LT_not302 c clk sh th : (match tpc th with T302 _ _ => False | _ => True end) -> LT c clk sh th.
+Proof. unfold LT. destruct (tpc th); auto. intros []. Qed.
+
+Definition tkeep (sh sh' : shared) : Prop :=
+  phase sh' = phase sh /\ topen sh' = topen sh /\ dtag sh' = dtag sh /\ dl sh' = dl sh /\
+  clog sh' = clog sh /\ admits sh' = admits sh.
+Lemma core_tkeep sh sh' : core_eq sh sh' -> tkeep sh sh'.
+Proof. intros (E1 & E2 & E3 & E4 & E5 & E6 & E7 & E8 & E9). repeat split; assumption. Qed.
+
+Lemma ST_keep c clk sh sh' : tkeep sh sh' -> ST c clk sh -> ST c clk sh'.
+Proof. intros (E1 & E2 & E3 & E4 & E5 & E6) H. unfold ST in *. rewrite E1, E2, E3, E4, E5, E6. exact H. Qed.
+
+Lemma ST_setdl c clk sh : ST c clk sh -> ST c clk (set_dl sh (clk + retry_ms c)).
+Proof.
+  intros (H1 & H2 & H3 & H4 & H5). unfold ST. cbn [topen dtag phase dl clog admits set_dl].
+  split; [assumption|split; [lia|split; [intros _; lia|split; assumption]]].
+Qed.
+
+Lemma firstn_snoc_le {A} k (l : list A) x : (k <= length l)%nat -> firstn k (l ++ [x]) = firstn k l.
+Proof. intros H. rewrite firstn_app. replace (k - length l)%nat with 0%nat by lia. cbn. apply app_nil_r. Qed.
+
+Lemma adm_ok_snoc c l e a : adm_ok c l a -> adm_ok c (l ++ [e]) a.
+Proof.
+  unfold adm_ok. intros H Hs. destruct (H Hs) as (H1 & H2 & H3 & H4). split; [assumption|split; [|split]].
+  - rewrite app_length. cbn. lia.
+  - rewrite firstn_snoc_le by lia. assumption.
+  - rewrite nth_error_snoc_lt by lia. assumption.
+Qed.
+
+Lemma ST_open c clk sh tid a : ST c clk sh -> ST c clk (set_open sh tid a clk).
+Proof.
+  intros (H1 & H2 & H3 & H4 & H5). unfold ST. cbn [topen dtag phase dl clog admits set_open].
+  split; [lia|split; [lia|split; [intros; lia|split]]].
+  - rewrite last_opening_app. reflexivity.
+  - eapply Forall_impl; [|exact H5]. intros x Hx. apply adm_ok_snoc. exact Hx.
+Qed.
+
+Lemma ST_cas_other c clk sh tid k a b :
+  is_opening (CEv tid k a b clk) = false -> ST c clk sh -> ST c clk (set_sw sh tid k a b clk).
+Proof.
+  intros Hno (H1 & H2 & H3 & H4 & H5). unfold ST. cbn [topen dtag phase dl clog admits set_sw].
+  split; [assumption|split; [assumption|split; [assumption|split]]].
+  - rewrite last_opening_app. cbn [last_opening]. rewrite Hno. assumption.
+  - eapply Forall_impl; [|exact H5]. intros x Hx. apply adm_ok_snoc. exact Hx.
+Qed.
+
+Lemma ST_adm c clk sh a : adm_ok c (clog sh) a -> ST c clk sh -> ST c clk (add_adm sh a).
+Proof.
+  intros Ha (H1 & H2 & H3 & H4 & H5). unfold ST. cbn [topen dtag phase dl clog admits add_adm].
+  split; [assumption|split; [assumption|split; [assumption|split; [assumption|]]]].
+  apply Forall_app. split; [assumption|constructor; [assumption|constructor]].
+Qed.
+
+Lemma T_step c tid clk sh th : ST c clk sh -> LT c clk sh th ->
+  ST c clk (fst (tstep c tid clk sh th)) /\ LT c clk (fst (tstep c tid clk sh th)) (snd (tstep c tid clk sh th)) /\
+  frame_cond sh (fst (tstep c tid clk sh th)).
+Proof.
+  intros HS HL. pose proof HS as (HS1 & HS2 & HS3 & HS4 & HS5).
+  assert (Hkeep : forall sh' th', tkeep sh sh' -> (match tpc th' with T302 _ _ => False | _ => True end) ->
+            ST c clk sh' /\ LT c clk sh' th' /\ frame_cond sh sh').
+  { intros sh' th' Hk Hn. split; [exact (ST_keep _ _ _ _ Hk HS)|split; [apply LT_not302; exact Hn|]].
+    left. destruct Hk as (E1 & E2 & _). split; assumption. }
+  assert (Hfin : forall th0, match tpc (finish th0) with T302 _ _ => False | _ => True end) by (intros; apply finish_not_t302).
+  unfold tstep. destruct (tpc th) eqn:Epc.
+  - (* PBound *)
+    destruct (begin_op_spec c clk sh th) as (Hc & _ & _ & Hn). apply Hkeep; [apply core_tkeep; exact Hc|exact Hn].
+  - (* PDone *) cbn [fst snd]. apply Hkeep; [solve [repeat split]|rewrite Epc; exact I].
+  - (* T301 *)
+    destruct (sw sh) eqn:Esw; [|destruct (0 <? probe_num c)|]; cbn [fst snd]; try (apply Hkeep; [solve [repeat split]|first [apply Hfin|exact I]]).
+    + split; [apply ST_adm; [intros Hx; discriminate Hx|assumption]|split; [apply LT_not302, Hfin|left; split; reflexivity]].
+    + split; [apply ST_adm; [intros Hx; discriminate Hx|assumption]|split; [apply LT_not302, Hfin|left; split; reflexivity]].
+  - (* T303 *)
+    destruct (dl sh <=? clk) eqn:Edl; cbn [fst snd]; [|apply Hkeep; [solve [repeat split]|apply Hfin]].
+    split; [assumption|split; [|left; split; reflexivity]].
+    unfold LT. cbn [tpc with_pc]. apply Z.leb_le in Edl. split; [lia|split; [assumption|intros Hd; specialize (HS3 Hd); lia]].
+  - (* T302 *)
+    unfold LT in HL. rewrite Epc in HL. destruct HL as (HL1 & HL2 & HL3).
+    destruct (sw sh) eqn:Esw; cbn [fst snd]; try (apply Hkeep; [solve [repeat split]|apply Hfin]).
+    split; [|split; [apply LT_not302; exact I|left; split; reflexivity]].
+    apply ST_adm; [|apply ST_cas_other; [reflexivity|assumption]].
+    intros _. cbn [ad_fresh ad_topen ad_clk ad_epoch ad_tid clog set_sw]. split; [|split; [|split]].
+    + intros Hf. apply Z.eqb_eq in Hf. specialize (HL3 Hf). lia.
+    + unfold epoch. rewrite app_length. cbn. lia.
+    + unfold epoch. replace (Z.to_nat (Z.of_nat (length (clog sh)) + 1 - 1)) with (length (clog sh)) by lia.
+      rewrite firstn_app, Nat.sub_diag, firstn_all. cbn. rewrite app_nil_r. assumption.
+    + unfold epoch. replace (Z.to_nat (Z.of_nat (length (clog sh)) + 1 - 1)) with (length (clog sh)) by lia.
+      apply nth_error_snoc_eq.
+  - (* T307 *) cbn [fst snd]. apply Hkeep; [solve [repeat split]|destruct blocked; [exact I|apply Hfin]].
+  - (* R302 *)
+    destruct (sw sh) eqn:Esw; cbn [fst snd]; try (apply Hkeep; [solve [repeat split]|apply Hfin]).
+    split; [apply ST_cas_other; [reflexivity|assumption]|split; [apply LT_not302; exact I|left; split; reflexivity]].
+  - (* R307 *) cbn [fst snd]. apply Hkeep; [solve [repeat split]|apply Hfin].
+  - (* C301 *)
+    destruct (sw sh); [destruct (T <? min_amt c); [|destruct (reached c B T)]|destruct bad|]; cbn [fst snd];
+      (apply Hkeep; [solve [repeat split]|first [apply Hfin|exact I]]).
+  - (* C301b *) destruct (sw sh); cbn [fst snd]; (apply Hkeep; [solve [repeat split]|first [apply Hfin|exact I]]).
+  - (* C305 *) cbn [fst snd]. apply Hkeep; [solve [repeat split]|exact I].
+  - (* C314 *) destruct ((probe_num c =? 0) || (probe_num c <=? pn sh)); cbn [fst snd]; (apply Hkeep; [solve [repeat split]|first [apply Hfin|exact I]]).
+  - (* CCasCO *)
+    destruct (sw sh) eqn:Esw; cbn [fst snd]; try (apply Hkeep; [solve [repeat split]|apply Hfin]).
+    split; [apply ST_open; assumption|split; [apply LT_not302; exact I|right; reflexivity]].
+  - (* C304co *) cbn [fst snd]. split; [apply ST_setdl; assumption|split; [apply LT_not302; exact I|left; split; reflexivity]].
+  - (* C307co *) cbn [fst snd]. apply Hkeep; [solve [repeat split]|apply Hfin].
+  - (* CCasHO *)
+    destruct (sw sh) eqn:Esw; cbn [fst snd]; try (apply Hkeep; [solve [repeat split]|apply Hfin]).
+    split; [apply ST_open; assumption|split; [apply LT_not302; exact I|right; reflexivity]].
+  - (* C306ho *) cbn [fst snd]. apply Hkeep; [solve [repeat split]|exact I].
+  - (* C304ho *) cbn [fst snd]. split; [apply ST_setdl; assumption|split; [apply LT_not302; exact I|left; split; reflexivity]].
+  - (* C307ho *) cbn [fst snd]. apply Hkeep; [solve [repeat split]|apply Hfin].
+  - (* CCasHC *)
+    destruct (sw sh) eqn:Esw; cbn [fst snd]; try (apply Hkeep; [apply core_tkeep, reset_metric_core|apply Hfin]).
+    split; [apply ST_cas_other; [reflexivity|assumption]|split; [apply LT_not302; exact I|left; split; reflexivity]].
+  - (* C306hc *) cbn [fst snd]. apply Hkeep; [solve [repeat split]|exact I].
+  - (* C307hc *)
+    cbn [fst snd]. destruct (reset_metric_core c clk (add_call sh tid (TEv HalfOpen Closed None))) as (E1 & E2 & E3 & E4 & E5 & E6 & E7 & E8 & E9).
+    apply Hkeep; [repeat split; assumption|apply Hfin].
+Qed.
+
+(* ---------------------------------------------------------------------------------- *)
+(* every log entry carries the id of the thread that stepped                            *)
+
+Definition appends (tid : Z) (sh sh' : shared) : Prop :=
+  exists dc dl da, clog sh' = clog sh ++ dc /\ llog sh' = llog sh ++ dl /\ admits sh' = admits sh ++ da /\
+    Forall (fun e => ce_tid e = tid) dc /\ Forall (fun k => lc_tid k = tid) dl /\ Forall (fun a => ad_tid a = tid) da.
+
+Lemma appends_core tid sh sh' : core_eq sh sh' -> appends tid sh sh'.
+Proof.
+  intros (_ & _ & _ & E4 & E5 & E6 & _). exists [], [], []. rewrite E4, E5, E6, !app_nil_r. repeat split; constructor.
+Qed.
+
+Ltac app_eq := first [reflexivity | symmetry; apply app_nil_r].
+Ltac app_tac := unfold appends; do 3 eexists; proj_simpl;
+  split; [app_eq|split; [app_eq|split; [app_eq|split; [|split]]]]; repeat constructor.
+
+Lemma tstep_appends c tid clk sh th : appends tid sh (fst (tstep c tid clk sh th)).
+Proof.
+  unfold tstep. destruct (tpc th) eqn:Epc.
+  - apply appends_core. apply (proj1 (begin_op_spec c clk sh th)).
+  - cbn [fst snd]. app_tac.
+  - destruct (sw sh); [|destruct (0 <? probe_num c)|]; cbn [fst snd]; app_tac.
+  - destruct (dl sh <=? clk); cbn [fst snd]; app_tac.
+  - destruct (sw sh); cbn [fst snd]; app_tac.
+  - cbn [fst snd]. app_tac.
+  - destruct (sw sh); cbn [fst snd]; app_tac.
+  - cbn [fst snd]. app_tac.
+  - destruct (sw sh); [destruct (T <? min_amt c); [|destruct (reached c B T)]|destruct bad|]; cbn [fst snd]; app_tac.
+  - destruct (sw sh); cbn [fst snd]; app_tac.
+  - cbn [fst snd]. app_tac.
+  - destruct ((probe_num c =? 0) || (probe_num c <=? pn sh)); cbn [fst snd]; app_tac.
+  - destruct (sw sh); cbn [fst snd]; app_tac.
+  - cbn [fst snd]. app_tac.
+  - cbn [fst snd]. app_tac.
+  - destruct (sw sh); cbn [fst snd]; app_tac.
+  - cbn [fst snd]. app_tac.
+  - cbn [fst snd]. app_tac.
+  - cbn [fst snd]. app_tac.
+  - destruct (sw sh); cbn [fst snd]; try (apply appends_core, reset_metric_core). app_tac.
+  - cbn [fst snd]. app_tac.
+  - cbn [fst snd].
+    destruct (reset_metric_core c clk (add_call sh tid (TEv HalfOpen Closed None))) as (_ & _ & _ & E4 & E5 & E6 & _).
+    unfold appends. exists [], [LCall tid (TEv HalfOpen Closed None)], []. rewrite E4, E5, E6. proj_simpl. rewrite !app_nil_r.
+    repeat split; repeat constructor.
+Qed.
+
+(* ---------------------------------------------------------------------------------- *)
+(* all schedules                                                                        *)
+
+Lemma exec_app c s1 s2 cf : exec c (s1 ++ s2) cf = exec c s2 (exec c s1 cf).
+Proof. unfold exec. apply fold_left_app. Qed.
+
+Lemma thread_at_init c t0 progs tid th :
+  thread_at (init_config c t0 progs) tid th -> pending (tpc th) = [] /\ tres th = [] /\
+  (match tpc th with T302 _ _ => False | _ => True end).
+Proof.
+  intros [_ H]. cbn [init_config ths] in H. rewrite nth_error_map in H.
+  destruct (nth_error progs (Z.to_nat tid)) as [p|]; [|discriminate]. inversion H; subst.
+  unfold init_thread. cbn. destruct p; repeat split.
+Qed.
+
+Lemma init_SU c t0 : SU c (init_shared c t0).
+Proof.
+  unfold SU, probe_adm, probe_rec. cbn. split; [reflexivity|split; [reflexivity|split; [intros a []|split]]].
+  - intros _ k e H. destruct k; discriminate H.
+  - intros k e H. destruct k; discriminate H.
+Qed.
+
+Theorem U_exec c t0 progs sched :
+  let cf := exec c sched (init_config c t0 progs) in
+  SU c (shd cf) /\ forall tid th, thread_at cf tid th -> LU (shd cf) tid th.
+Proof.
+  cbv zeta.
+  apply (ginv_exec c (fun _ => True) (fun _ sh => SU c sh) (fun _ sh tid th => LU sh tid th)).
+  - intros tid clk sh th _ HS HL. apply U_step; assumption.
+  - intros dt clk sh _ HS. split; [assumption|auto].
+  - intros sl clk sh HS. split; [apply (SU_log c sh); [repeat split|assumption]|].
+    intros tid th HL. apply (LU_log sh); [repeat split|assumption].
+  - apply sev_okP_true.
+  - split; [apply init_SU|]. intros tid th Hat. destruct (thread_at_init _ _ _ _ _ Hat) as (Hp & Hr & _).
+    unfold LU. rewrite Hp, Hr. cbn. split; reflexivity.
+Qed.
+
+Lemma init_ST c t0 : 0 <= t0 -> ST c t0 (init_shared c t0).
+Proof. intros H. unfold ST. cbn. split; [assumption|split; [lia|split; [intros; lia|split; [reflexivity|constructor]]]]. Qed.
+
+Theorem T_exec c t0 progs sched : 0 <= t0 -> Forall sev_ok sched ->
+  let cf := exec c sched (init_config c t0 progs) in ST c (clk cf) (shd cf).
+Proof.
+  intros Ht0 Hok. cbv zeta.
+  apply (ginv_exec c (fun dt => 0 <= dt) (ST c) (fun clk sh _ th => LT c clk sh th)).
+  - intros tid clk sh th _ HS HL. destruct (T_step c tid clk sh th HS HL) as (H1 & H2 & H3).
+    split; [assumption|split; [assumption|]]. intros tid2 th2 _ HL2. exact (LT_frame _ _ _ _ _ H3 HL2).
+  - intros dt clk sh Hdt (H1 & H2 & H3 & H4 & H5). split; [unfold ST; repeat split; try assumption; lia|].
+    intros _ th. unfold LT. destruct (tpc th); auto. intros (A & B & C). repeat split; try assumption; lia.
+  - intros sl clk sh HS. split; [apply (ST_keep c clk sh); [repeat split|assumption]|].
+    intros _ th HL. exact HL.
+  - apply sev_okP_nonneg; assumption.
+  - split; [apply init_ST; assumption|]. intros tid th Hat. destruct (thread_at_init _ _ _ _ _ Hat) as (_ & _ & Hn).
+    apply LT_not302. exact Hn.
+Qed.
+
+(* log entries carry ids of existing threads *)
+Definition tid_ok (n : nat) (tid : Z) : Prop := 0 <= tid < Z.of_nat n.
+Definition logs_ok (n : nat) (sh : shared) : Prop :=
+  Forall (fun e => tid_ok n (ce_tid e)) (clog sh) /\ Forall (fun k => tid_ok n (lc_tid k)) (llog sh) /\
+  Forall (fun a => tid_ok n (ad_tid a)) (admits sh).
+
+Lemma logs_ok_cstep c cf e : logs_ok (length (ths cf)) (shd cf) ->
+  length (ths (cstep c cf e)) = length (ths cf) /\ logs_ok (length (ths cf)) (shd (cstep c cf e)).
+Proof.
+  intros H. destruct e as [tid|dt|sl]; cbn [cstep]; [|split; [reflexivity|exact H]|split; [reflexivity|exact H]].
+  destruct (nth_error (ths cf) (Z.to_nat tid)) as [th|] eqn:Eth; [|split; [reflexivity|exact H]].
+  destruct (Z.ltb_spec tid 0) as [Hneg|Hpos]; [split; [reflexivity|exact H]|].
+  pose proof (tstep_appends c tid (clk cf) (shd cf) th) as Ha.
+  destruct (tstep c tid (clk cf) (shd cf) th) as [sh' th']. cbn [fst] in Ha. cbn [ths shd].
+  split; [apply upd_nth_length|].
+  assert (Hok : tid_ok (length (ths cf)) tid).
+  { split; [assumption|]. assert (Z.to_nat tid < length (ths cf))%nat by (apply nth_error_Some; congruence). lia. }
+  destruct Ha as (dc & dl & da & E1 & E2 & E3 & F1 & F2 & F3). destruct H as (G1 & G2 & G3).
+  unfold logs_ok. rewrite E1, E2, E3. repeat split; apply Forall_app; (split; [assumption|]).
+  - eapply Forall_impl; [|exact F1]. intros x ->. exact Hok.
+  - eapply Forall_impl; [|exact F2]. intros x ->. exact Hok.
+  - eapply Forall_impl; [|exact F3]. intros x ->. exact Hok.
+Qed.
+
+Lemma logs_ok_exec c sched cf : logs_ok (length (ths cf)) (shd cf) ->
+  length (ths (exec c sched cf)) = length (ths cf) /\ logs_ok (length (ths cf)) (shd (exec c sched cf)).
+Proof.
+  revert cf; induction sched as [|e r IH]; intros cf H; cbn; [split; [reflexivity|exact H]|].
+  destruct (logs_ok_cstep c cf e H) as [Hl Hk]. rewrite <- Hl in Hk. destruct (IH _ Hk) as [A B].
+  rewrite Hl in A, B. split; assumption.
+Qed.
+
+Lemma cas_of_none tid l : Forall (fun e => ce_tid e <> tid) l -> cas_of tid l = [].
+Proof.
+  induction 1 as [|e l He _ IH]; [reflexivity|]. unfold cas_of in *. cbn. rewrite IH.
+  destruct (Z.eqb_spec (ce_tid e) tid); [contradiction|reflexivity].
+Qed.
+Lemma calls_of_none tid l : Forall (fun k => lc_tid k <> tid) l -> calls_of tid l = [].
+Proof.
+  induction 1 as [|e l He _ IH]; [reflexivity|]. unfold calls_of in *. cbn. rewrite IH.
+  destruct (Z.eqb_spec (lc_tid e) tid); [contradiction|reflexivity].
+Qed.
+
+(* ---- C12_transition_unique ---- *)
+Theorem thm_transition_unique c t0 progs sched :
+  let cf := exec c sched (init_config c t0 progs) in
+  cpath Closed (clog (shd cf)) = Some (sw (shd cf)) /\
+  (forall tid th, thread_at cf tid th ->
+     cas_of tid (clog (shd cf)) = calls_of tid (llog (shd cf)) ++ pending (tpc th)) /\
+  (length (ths cf) = length progs /\ logs_ok (length progs) (shd cf)).
+Proof.
+  cbv zeta. destruct (U_exec c t0 progs sched) as [(H1 & _) HL]. split; [exact H1|split].
+  - intros tid th Hat. exact (proj1 (HL tid th Hat)).
+  - assert (Hi : logs_ok (length (ths (init_config c t0 progs))) (shd (init_config c t0 progs))).
+    { cbn. repeat split; constructor. }
+    destruct (logs_ok_exec c sched _ Hi) as [A B]. cbn [init_config ths] in A, B. rewrite map_length in A, B. split; assumption.
+Qed.
+
+(* when every thread has finished: per thread, the listener calls ARE the thread's CAS log *)
+Theorem thm_transition_quiescent c t0 progs sched :
+  let cf := exec c sched (init_config c t0 progs) in
+  all_done cf -> forall tid, cas_of tid (clog (shd cf)) = calls_of tid (llog (shd cf)).
+Proof.
+  cbv zeta. intros Hd tid. destruct (thm_transition_unique c t0 progs sched) as (_ & H2 & Hlen & (G1 & G2 & _)).
+  set (cf := exec c sched (init_config c t0 progs)) in *.
+  destruct (Z_lt_le_dec tid 0) as [Hneg|Hpos]; [|destruct (nth_error (ths cf) (Z.to_nat tid)) as [th|] eqn:Eth].
+  - rewrite cas_of_none, calls_of_none; [reflexivity| |].
+    + eapply Forall_impl; [|exact G2]. intros x [Hx _] Heq. lia.
+    + eapply Forall_impl; [|exact G1]. intros x [Hx _] Heq. lia.
+  - rewrite (H2 tid th (conj Hpos Eth)).
+    assert (Hin : In th (ths cf)) by (eapply nth_error_In; exact Eth).
+    unfold all_done in Hd. rewrite Forall_forall in Hd. rewrite (Hd th Hin). cbn. apply app_nil_r.
+  - apply nth_error_None in Eth. rewrite Hlen in Eth.
+    rewrite cas_of_none, calls_of_none; [reflexivity| |].
+    + eapply Forall_impl; [|exact G2]. intros x [_ Hx] Heq. lia.
+    + eapply Forall_impl; [|exact G1]. intros x [_ Hx] Heq. lia.
+Qed.
+
+(* ---- C12_single_probe ---- *)
+Theorem thm_single_probe c t0 progs sched :
+  let cf := exec c sched (init_config c t0 progs) in
+  probe_num c = 0 -> probe_adm (shd cf).
+Proof. cbv zeta. intros Hp. destruct (U_exec c t0 progs sched) as [(_ & _ & _ & H4 & _) _]. exact (H4 Hp). Qed.
+
+(* the admission records are the `true` results *)
+Theorem thm_results_admissions c t0 progs sched :
+  let cf := exec c sched (init_config c t0 progs) in
+  forall tid th, thread_at cf tid th ->
+    count_true (tres th) = Z.of_nat (length (adm_of tid (admits (shd cf)))).
+Proof. cbv zeta. intros tid th Hat. destruct (U_exec c t0 progs sched) as [_ HL]. exact (proj2 (HL tid th Hat)). Qed.
+
+(* ---- C12_full_timeout (under the freshness hypothesis) ---- *)
+Theorem thm_full_timeout c t0 progs sched : 0 <= t0 -> Forall sev_ok sched ->
+  let cf := exec c sched (init_config c t0 progs) in
+  forall k e, nth_error (clog (shd cf)) k = Some e -> ce_to e = HalfOpen ->
+    exists tp fr, In (Adm (ce_tid e) (ce_clk e) Open (Z.of_nat k + 1) tp fr) (admits (shd cf)) /\
+      tp = last_opening (firstn k (clog (shd cf))) 0 /\
+      (fr = true -> last_opening (firstn k (clog (shd cf))) 0 + retry_ms c <= ce_clk e).
+Proof.
+  intros Ht0 Hok. cbv zeta. intros k e Hn Ht.
+  destruct (U_exec c t0 progs sched) as [(_ & _ & _ & _ & H5) _].
+  destruct (T_exec c t0 progs sched Ht0 Hok) as (_ & _ & _ & _ & HF).
+  destruct (H5 k e Hn Ht) as (tp & fr & Hin). exists tp, fr. split; [exact Hin|].
+  rewrite Forall_forall in HF. destruct (HF _ Hin eq_refl) as (A & B & C & _). cbn in A, B, C.
+  replace (Z.to_nat (Z.of_nat k + 1 - 1)) with k in C by lia. split; [exact C|]. intros Hf. specialize (A Hf). rewrite <- C. exact A.
+Qed.
+
+(* decidable form of the schedule hypothesis, for concrete schedules *)
+Definition sev_okb (e : sev) : bool := match e with Tick dt => 0 <=? dt | _ => true end.
+Lemma sev_okb_spec sched : forallb sev_okb sched = true -> Forall sev_ok sched.
+Proof.
+  induction sched as [|e r IH]; intros H; constructor; cbn in H; apply andb_prop in H; destruct H as [H1 H2].
+  - destruct e; cbn in *; try exact I. apply Z.leb_le. exact H1.
+  - apply IH. exact H2.
+Qed.
+Definition all_doneb (cf : config) : bool := forallb (fun th => match tpc th with PDone => true | _ => false end) (ths cf).
+Lemma all_doneb_spec cf : all_doneb cf = true -> all_done cf.
+Proof.
+  unfold all_doneb, all_done. intros H. rewrite forallb_forall in H. apply Forall_forall. intros th Hin.
+  specialize (H th Hin). destruct (tpc th); try discriminate. reflexivity.
 Qed.
